@@ -319,6 +319,11 @@ def run_zero(rep):
             ("complex arg zero", lambda: grad(lambda v: 3.0)(1.0 + 2j), 0.0 + 0.0j),
             ("vjp zero ignores g", lambda: make_vjp(lambda v: onp.ones(2))(x)[0](onp.array([5.0, 7.0])), onp.zeros(3)),
             ("zeros_like/ones_like", lambda: grad(lambda v: anp.sum(anp.zeros_like(v) + anp.ones_like(v) * v))(x), onp.ones(3)),
+            # entries the output does not depend on get an EXACT zero even when the cotangent reaching them is infinite / NaN
+            ("nan_to_num at non-finite entries, infinite cotangent", lambda: grad(lambda v: anp.sum(anp.sqrt(anp.nan_to_num(v))))(onp.array([onp.nan, 4.0, onp.inf])), onp.array([0.0, 0.25, 0.0])),
+            ("where masks an infinite slope", lambda: grad(lambda v: anp.sum(anp.where(v > 0, anp.sqrt(anp.where(v > 0, v, 1.0)), 0.0)))(onp.array([0.0, 4.0, -1.0])), onp.array([0.0, 0.25, 0.0])),
+            ("x == x NaN mask", lambda: grad(lambda v: anp.sum(anp.where(v == v, v * 2.0, 0.0)))(onp.array([onp.nan, 1.0, 2.0])), onp.array([0.0, 2.0, 2.0])),
+            ("maximum with -inf", lambda: grad(lambda v: anp.sum(anp.maximum(v, -onp.inf) * 3.0))(onp.array([1.0, -2.0])), onp.array([3.0, 3.0])),
         ]
         for lab, fn, exp in tests:
             try:
